@@ -15,7 +15,7 @@ namespace vsched {
 
 enum { MAXT = 16 };
 
-struct PointInfo { uint8_t nenabled; uint8_t running_enabled; uint8_t chosen; uint8_t kind; };
+struct PointInfo { uint8_t nenabled; uint8_t running_enabled; uint8_t chosen; uint8_t kind; uint8_t ntimer; }; // the last ntimer alternatives wake a timed waiter before anything else forced it (a deviation, cost 1)
 
 struct Result {
 	std::vector<uint8_t> choices;      // index into the canonical enabled list at every point
@@ -40,6 +40,8 @@ double vnow();       // virtual clock (seconds since scenario start)
 uint64_t steps();    // schedule points taken in the current execution
 // observable-state hook: harness may supply extra bytes hashed into the state signature at each choice point
 void set_state_probe(uint64_t (*probe)());
+// early expiry of timed waits as a costed deviation (default on); off = timeouts fire only when no thread can run
+void set_early_timeouts(bool on);
 
 struct ExploreStats { uint64_t executions, points, max_points, pruned_by_bound, with_preemption, pruned_by_state; int bound_completed; bool complete; };
 // Depth-first exploration of all schedules with at most `bound` preemptions (bound < 0: unbounded).
